@@ -58,7 +58,6 @@ TEncodeOk ==
                                     /\ Ev.pl[i][4] = 1                           \* no payload is empty
         \* ... and the stream producers it is left with are the recorded ones
         /\ {<<x.key, x.id, x.pt>> : x \in st.streams} = {<<Ev.ps[k][1], Ev.ps[k][2], Ev.ps[k][3]>> : k \in 1..Len(Ev.ps)}
-        /\ st.next = Ev.next
         /\ Ev.n = batchId                                                        \* batch ids count up from zero
         /\ pstreams' = st.streams /\ nextId' = st.next /\ ann' = st.ann /\ retiredIds' = st.ret
         /\ wire' = st.out /\ orig' = st.out /\ gapped' = g
